@@ -202,9 +202,17 @@ func expand(r *vk.Run, cfg Config, slot int, n node, mu *sync.Mutex, seen, obs m
 		}
 		path := append(append(make([]string, 0, len(n.path)+1), n.path...), op)
 		func() {
-			defer s.Close()
+			panicked := false
+			// an instance that panicked may hold its own locks: closing it can block forever, so
+			// it is abandoned instead
+			defer func() {
+				if !panicked {
+					s.Close()
+				}
+			}()
 			defer func() {
 				if p := recover(); p != nil {
+					panicked = true
 					report(r, cfg.Name, path, vk.Violationf("panic:"+firstLine(fmt.Sprint(p)), "panic in %s: %v", op, p))
 				}
 			}()
@@ -271,12 +279,23 @@ func firstLine(s string) string {
 }
 
 // Replay re-executes one op sequence and returns the violation it produces, if any.
-func Replay(cfg Config, path []string) error {
+func Replay(cfg Config, path []string) (rerr error) {
 	s, err := cfg.New()
 	if err != nil {
 		return err
 	}
-	defer s.Close()
+	panicked := false
+	defer func() {
+		if !panicked {
+			s.Close()
+		}
+	}()
+	defer func() {
+		if p := recover(); p != nil {
+			panicked = true
+			rerr = vk.Violationf("panic:"+firstLine(fmt.Sprint(p)), "panic during replay: %v", p)
+		}
+	}()
 	if err := s.Check(); err != nil {
 		return err
 	}
